@@ -148,8 +148,6 @@ def run_groups(pid, groups, tier, repo, scratch, seed):
     out['trusted'] += ['kani overlay: ' + a for a in applied if a.startswith('O3') or a.startswith('O4')]
     n_playback = 0
     for g in groups:
-        if os.environ.get('VERIF_FAIL_FAST') and any(h.get('status') == 'failed' for h in out['harnesses']):
-            break   # seed matrix only: a harness of an earlier group already failed
         G = kgroups.GROUPS[g]
         hs = [h for h in G['harnesses'] if (tier == 'thorough' or h.get('tier', 'quick') == 'quick')
               and (pid in h.get('props', [pid]) or pid == 'ALL')]
